@@ -324,6 +324,13 @@ func (h *hist) rhs(target *node, vi int, path []string) (string, *node) {
 		return "[&" + a.s + "=" + b.s + "]", mapOf(map[string]*node{a.s: b})
 	case k < 8: // the value of a variable (possibly the assigned one: the old value gets embedded)
 		j := r.Intn(len(h.names))
+		if mj := h.model[j]; mj.kind == 'l' && len(mj.l) > 2 && r.Intn(3) == 0 {
+			// a slice of a variable's list: the assigned container then holds a view of another list
+			a := r.Intn(len(mj.l) - 1)
+			b := a + 1 + r.Intn(min(len(mj.l)-a, 40))
+			h.inc("rhs_slice_of_variable")
+			return "$" + h.names[j] + "[" + strconv.Itoa(a) + ".." + strconv.Itoa(b) + "]", list(mj.l[a:b])
+		}
 		if h.model[j].size+h.model[vi].size < 12000 {
 			return "$" + h.names[j], h.model[j]
 		}
